@@ -122,6 +122,10 @@ func executeCompaction(db *DB) (compactionMetadata *proto.CompactionMetadata, er
 	}()
 
 	reduceFunc := sstables.ScanReduceLatestWinsSkipTombstones
+	if !compactionAction.includesOldestTable {
+		// older tables that are not part of this compaction may still hold values for the deleted keys
+		reduceFunc = scanReduceLatestWinsKeepTombstones
+	}
 	err = sstables.NewSSTableMerger(db.cmp).MergeCompact(iterators, writer, reduceFunc)
 	if err != nil {
 		return nil, err
@@ -148,6 +152,17 @@ func executeCompaction(db *DB) (compactionMetadata *proto.CompactionMetadata, er
 	log.Printf("done compacting %d sstables in %v. Path: [%s]\n", len(paths), time.Since(start), writeFolder)
 
 	return compactionMetadata, nil
+}
+
+// scanReduceLatestWinsKeepTombstones is sstables.ScanReduceLatestWins, but keeps deletions as empty values. An empty value
+// reads as "not found" through the database and keeps shadowing older tables. It is finally dropped by
+// sstables.ScanReduceLatestWinsSkipTombstones once a compaction includes the oldest table.
+func scanReduceLatestWinsKeepTombstones(key []byte, values [][]byte, context []int) ([]byte, []byte) {
+	key, val := sstables.ScanReduceLatestWins(key, values, context)
+	if len(val) == 0 {
+		return key, []byte{}
+	}
+	return key, val
 }
 
 func saveCompactionMetadata(writeFolder string, compactionMetadata *proto.CompactionMetadata) (err error) {
